@@ -1,7 +1,7 @@
 (* C09 — property theorems only. Each is closed by [exact] of a lemma proved in C09/Proofs.v. *)
 From Coq Require Import List Arith Permutation.
 Import ListNotations.
-From AgileV Require Import Base.Prelude C09.Model C09.Proofs.
+From AgileV Require Import Base.Prelude C09.Model C09.Proofs C09.ProofsFull.
 
 (* After any sequence of add / sample / clear with batch widths <= capacity, the buffer state is
    tied to the history of additions since the last clear: reported length = min(k, cap); the
@@ -34,6 +34,20 @@ Theorem sample_sound : forall (A : Type) c (h : list A) (b : rb A) perm bs,
   Forall (fun r => exists x, r = Some x /\ In x (lastn (Nat.min (length h) c) h)) rows.
 Proof. exact @sample_sound_lemma. Qed.
 Print Assumptions sample_sound.
+
+(* a sample as wide as the buffer's length returns every stored transition exactly once: as a multiset it is
+   the stored contents, i.e. the last min(cap,k) additions — nothing lost, nothing duplicated *)
+Theorem sample_complete : forall (A : Type) c (h : list A) (b : rb A) perm bs,
+  0 < c -> Inv c h b -> Permutation perm (seq 0 (size b)) -> size b <= bs ->
+  Permutation (snd (rb_sample b perm bs)) (rb_contents b) /\
+  Permutation (snd (rb_sample b perm bs)) (map Some (lastn (Nat.min (length h) c) h)).
+Proof. exact @sample_complete_lemma. Qed.
+Print Assumptions sample_complete.
+
+(* non-vacuity of sample_complete: a wrapped buffer sampled at full width *)
+Example sample_complete_nonvacuous :
+  snd (rb_sample (rb_run 3 [Add [1;2]; Add [3;4;5]]) [2;0;1] 3) = [Some 3; Some 4; Some 5].
+Proof. reflexivity. Qed.
 
 Theorem clear_spec : forall (A : Type) c (ops1 ops2 : list (op A)),
   rb_run c (ops1 ++ Clear :: ops2) = rb_run c ops2 /\ spec_run (ops1 ++ Clear :: ops2) = spec_run ops2.
